@@ -41,8 +41,6 @@ class Quant(object):
         nested = isinstance(probe, Quant) or (isinstance(probe, (list, tuple)) and any(isinstance(x, Quant) for x in probe))
         for t in terms:
             t = E.const(t)
-            if not nested and t.op == 'var' and t.args[0] in ('sk1', 'sk2') and not self.is_inner:
-                continue        # inner-level skolems are only useful to nested quantifiers
             g = (self.lo <= t) & (t < self.hi)
             for x in _all_instances(self.body(t), terms):
                 out.append(implies(g, x))
@@ -122,6 +120,7 @@ class Spec(object):
         self.ghosts = {}          # anchor -> fn(G)
         self.old = OldView(self, 'old%s__' % tag)
         self.pins = {}
+        self.definitions = []
 
     def wrap(self, v):
         if isinstance(v, ScalarVar) and v.name in self.gen.fn.pins:
@@ -169,6 +168,26 @@ class Spec(object):
     def sk(self, level=0):
         return self.gen.skolem(level)
 
+    def spec_array(self, name, ty=REAL):
+        """a specification-only array (never assigned by code): returns its accessor"""
+        full = 'SPEC_%s%s' % (name, self.tag)
+        self.gen.globals_a[full] = ty
+        return (lambda k: E.idx(full, k, ty)), full
+
+    def define_prefix_sum(self, name, n, term):
+        """A[0] = 0, A[k+1] = A[k] + term(k) for k in [0,n): a definitional extension (such an array exists for any state,
+        provided term(k) only reads state the function does not assign -- checked).  Assumed when verifying the function,
+        and handed to callers together with the postcondition that mentions A."""
+        acc, full = self.spec_array(name)
+        facts = [acc(0).eq(0), self.forall(0, n, lambda k: acc(k + 1).eq(acc(k) + term(k)))]
+        self.definitions.append((full, facts))
+        for j, f in enumerate(facts):
+            if self.mode == 'call':
+                self.ensures(f, 'def_%s_%d' % (name, j))
+            else:
+                self.requires(f, 'def_%s_%d' % (name, j))
+        return acc
+
     def i2r_const(self, c):
         """the conversion of the integer constant c is c"""
         self.requires(E.idx('I2R', c, REAL).eq(Fraction(c)), 'i2r_const_%d' % c)
@@ -200,6 +219,20 @@ class LoopCtx(object):
         self.loop = loop
         self.ns = loop.ns
         self.i = E.var(loop.var, INT)
+
+    def __getattr__(self, name):
+        ns = self.__dict__.get('ns', {})
+        if name in ns:
+            return self.S.wrap(ns[name])
+        raise AttributeError(name)
+
+
+class NsCtx(object):
+    """names visible at a ghost anchor"""
+
+    def __init__(self, spec, ns):
+        self.S = spec
+        self.ns = ns
 
     def __getattr__(self, name):
         ns = self.__dict__.get('ns', {})
@@ -254,6 +287,8 @@ class Generator(object):
         self.known_terms = getattr(self, 'known_terms', [])
         self.snap_done = set()
         self.assumption_notes = []
+        self.dup_guard = {}
+        self.section = 0
 
     # ---------------------------------------------------------------------------------------- low level
     def fresh_global(self, base, ty, array=False):
@@ -307,7 +342,17 @@ class Generator(object):
         ob = Obligation(oid, kind, label)
         self.obls.append(ob)
         ob.index = len(self.obls)
-        self.out('__CPROVER_assert(%s, "%s");' % (self.p(e), oid.replace('"', "'")))
+        txt = self.p(e)
+        if kind in ('post', 'inv_step', 'lemma'):
+            # two differently named obligations with the same text at the same place mean a contract bug
+            # (typically a late-bound loop variable in a python closure): refuse to count one check twice
+            key = (kind, len(self.lines) // 1000000, txt)
+            prev = self.dup_guard.get(key)
+            import re as _re
+            if prev is not None and prev[0] != oid and prev[1] == self.section and _re.sub(r'\d+', '#', prev[0].split('[')[0]) == _re.sub(r'\d+', '#', oid.split('[')[0]):
+                raise GenError('obligations %s and %s have identical text: contract bug (closure capture?)' % (prev[0], oid))
+            self.dup_guard[key] = (oid, self.section)
+        self.out('__CPROVER_assert(%s, "%s");' % (txt, oid.replace('"', "'")))
 
     def emit_assume(self, e, why=''):
         e = E.const(e)
@@ -474,8 +519,15 @@ class Generator(object):
             self.loop(s, spec)
         elif isinstance(s, CallContract):
             self.call(s, spec)
+        elif isinstance(s, Ghost) and (s.name.endswith('.body_begin') or s.name.endswith('.body_end')):
+            cl = getattr(self, 'cur_loop', None)
+            if cl is not None and s.name.startswith('loop%s.' % cl[1].key[1]):
+                for fnc in cl[0].ghosts.get(s.name, []):
+                    fnc(GhostCtx(self, cl[2]))
         elif isinstance(s, Ghost):
-            pass
+            if s.name.endswith('.after') and getattr(s, 'fname', None) == self.fn.key:
+                for fnc in spec.ghosts.get(s.name, []):
+                    fnc(GhostCtx(self, NsCtx(spec, s.ns)))
         elif isinstance(s, Comment):
             self.out('/* %s */' % s.text)
         else:
@@ -493,7 +545,7 @@ class Generator(object):
             h = self.fresh_global('HA', self.globals_a.get(arr, REAL), array=True)
             self.out('__CPROVER_array_copy(%s, %s);' % (arr, h))
         from expr import subst
-        ren = {'@' + a: o for a, o in olds.items()}
+        ren = {'@' + a: o for a, o in olds.items()} if not getattr(s, 'recurrence', False) else {}
         for t in self.all_terms():
             # t as row index r
             inr = (s.lo <= t) & (t < s.hi)
@@ -559,11 +611,11 @@ class Generator(object):
         if ls.get('variant'):
             variant0 = self.fresh_global('var0', INT)
             self.out('%s = %s;' % (self.p(variant0), self.p(ls['variant'](L))))
-        self.run_ghosts(owner, lp, 'body_begin', L)
+        self.cur_loop = (owner, lp, L)
         self.stmts(lp.body, spec)
-        self.run_ghosts(owner, lp, 'body_end', L)
         self.stmts(lp.step, spec)
         invs2 = ls['inv'](L)
+        self.section += 1
         for label, prop in invs2:
             self.assert_prop(prop, '%s.step.%s[%s]' % (base_id, label, self.cfgname), 'inv_step')
         if variant0 is not None:
@@ -679,6 +731,7 @@ class Generator(object):
         self.stmts(fn.body, spec)
         for fnc in spec.ghosts.get('exit', []):
             fnc(GhostCtx(self, spec))
+        self.section += 1
         self.out('/* ---- ensures */')
         for label, prop in spec.enss:
             self.assert_prop(prop, '%s/%s/post.%s[%s]' % (self.prop, fn.key, label, self.cfgname), 'post')
@@ -688,6 +741,7 @@ class Generator(object):
         self.out('__CPROVER_assert(0, "reach");')
         frame_problems = self.check_frame(spec)
         self.check_terms()
+        self.check_definitions(spec)
         h = Harness()
         h.obligations = self.obls
         h.text = self.render()
@@ -721,6 +775,24 @@ class Generator(object):
         ir.walk(self.fn.body, f)
         bad = [n for n in sc if n in owned_s and n not in allowed_s] + [n for n in ar if n in owned_a and n not in allowed_a]
         return sorted(bad)
+
+    def check_definitions(self, spec):
+        sc, ar = ir.write_set(self.fn.body)
+        assigned = set(sc) | set('@' + a for a in ar)
+
+        def f(st):
+            if isinstance(st, CallContract):
+                fs, fa = self.call_frame(st)
+                assigned.update(fs)
+                assigned.update('@' + a for a in fa)
+        ir.walk(self.fn.body, f)
+        for full, facts in spec.definitions:
+            for q in facts:
+                sample = q.at(E.var('sk0', INT), (E.var('sk1', INT),)) if isinstance(q, Quant) else E.const(q)
+                fv = free_vars(sample) - {'sk0', 'sk1', '@' + full}
+                bad = fv & assigned
+                if bad:
+                    raise GenError('specification array %s is defined over state the function assigns: %s' % (full, sorted(bad)))
 
     def check_terms(self):
         """instantiation terms must denote the same value at every program point: no assigned scalar may occur"""
